@@ -27,7 +27,7 @@ RULE = (
     "sha1 of (input bytes, mode)"
 )
 BOUNDS = {
-    "quick": "m<=4 all 33 permutations, n in {1,m-1,m,m+1}, 3 letter kinds, 2 modes; singular cells m,n<=4; ties m<=3; generic m,n<=5",
+    "quick": "m<=4 all 33 permutations (+ rank profiles: every (independent rows, pivot columns) pattern for m,n<=4; larger generic shapes 65x3, 70x4, 130x2, 3x70, 40x40), n in {1,m-1,m,m+1}, 3 letter kinds, 2 modes; singular cells m,n<=4; ties m<=3; generic m,n<=5",
     "thorough": "m<=7 all 5913 permutations, n in {1,m-1,m,m+1,m+2}, 4 letter kinds, 2 modes; singular cells m,n<=5; ties m<=3; generic m,n<=6 x 4 fill rows",
 }
 WALL_BUDGET = {"quick": 240, "thorough": 1800}
@@ -165,6 +165,23 @@ def cases(tier, seed):
             for t in range(6):
                 for mode in ("LU", "LUP"):
                     out.append({"key": f"tie/m={m}/n={n}/t={t}/{mode}", "cls": "tie", "m": m, "n": n, "t": t, "mode": mode})
+    # rank profiles: every choice of independent rows I and pivot columns J (|I| = |J| = r < min or = min):
+    # dependent rows are left-combinations of the independent rows above them (zero rows if none)
+    RP = 4 if tier == "quick" else 5
+    for m in range(1, RP + 1):
+        for n in range(1, RP + 1):
+            for r in range(1, min(m, n) + 1):
+                for I in itertools.combinations(range(m), r):
+                    for J in itertools.combinations(range(n), r):
+                        if r == min(m, n) and I == tuple(range(r)) and J == tuple(range(r)):
+                            continue
+                        for mode in ("LU", "LUP"):
+                            out.append({"key": f"rankprofile/m={m}/n={n}/I={''.join(map(str, I))}/J={''.join(map(str, J))}/{mode}", "cls": "rankprofile", "m": m, "n": n,
+                                        "I": list(I), "J": list(J), "mode": mode})
+    # a few larger sizes (blocked / panelled code paths): enumerated list, generic entries
+    for (m, n) in ((65, 3), (70, 4), (130, 2), (3, 70), (40, 40)):
+        for mode in ("LU", "LUP"):
+            out.append({"key": f"generic-large/m={m}/n={n}/{mode}", "cls": "generic", "m": m, "n": n, "row": 0, "mode": mode})
     GM = 5 if tier == "quick" else 6
     rows = 1 if tier == "quick" else 4
     for m in range(1, GM + 1):
@@ -291,6 +308,27 @@ def run_case(case, seed):
         else:  # column c is a right-combination of the previous columns -> zero after c steps
             coef = fill.dyadic((c, 1, 4), bits=1, lo=-2, hi=2)
             A[:, c : c + 1] = O.qmatmul(A[:, :c], coef)
+    elif cls == "rankprofile":
+        fill = G.Fill(seed, stream=hash_tag(case["key"].rsplit("/", 1)[0]))
+        I, J = case["I"], case["J"]
+        r = len(I)
+        R_ = np.zeros((r, n, 4))
+        for t in range(r):
+            R_[t, J[t]] = G.SIGNED_UNITS[(2 * t + 1) % 8].astype(float) * (1.0 + t)
+            for c in range(J[t] + 1, n):
+                R_[t, c] = fill.dyadic((4,), bits=1, lo=-3, hi=3)
+        A = np.zeros((m, n, 4))
+        for t, i in enumerate(I):
+            A[i] = R_[t]
+        for i in range(m):
+            if i in I:
+                continue
+            above = [t for t, ii in enumerate(I) if ii < i]
+            for t in above:
+                coef = fill.dyadic((4,), bits=1, lo=-2, hi=2)
+                if not coef.any():
+                    coef[0] = 0.5
+                A[i] = A[i] + O.qmul(np.broadcast_to(coef, (n, 4)), R_[t])
     elif cls == "tie":
         fill = G.Fill(seed, stream=hash_tag(case["key"]))
         A = fill.quat(m, n, bits=2, lo=-8, hi=8)
@@ -312,7 +350,7 @@ def run_case(case, seed):
         fails.append(fail("input_unchanged", "quaternion_lu modified its argument", **tags))
     traces = 0
     if not ok:
-        if cls == "sing":
+        if cls in ("sing", "rankprofile"):
             if not isinstance(res, ValueError):
                 # any loud failure is accepted by the property; record the type
                 pass
@@ -321,7 +359,7 @@ def run_case(case, seed):
             fails.append(fail("unexpected_exception", f"{type(res).__name__}: {res}", **tags))
     else:
         fails += structure_fails(A, res, mode, tags)
-        if cls == "sing":
+        if cls in ("sing", "rankprofile"):
             path = "returned"
         if expected is not None and not fails:
             got = tuple(G.from_quat(x) for x in res)
@@ -340,7 +378,7 @@ def run_case(case, seed):
         "states": [path or digest(A, mode)],
         "transitions": (len(path.split(",")) if (path and path.startswith("swaps=")) else 1),
         "traces": traces,
-        "path": path if cls in ("forced", "sing") else None,
+        "path": path if cls in ("forced", "sing", "rankprofile") else None,
         "sample": {"A": A, "mode": mode, "returned": ok},
     }
 
